@@ -593,8 +593,12 @@ package core
 //@ iface Dict.CopyTo(self, dict)
 //@   nopanic
 //@   modifies ghost.dict_has[*], ghost.dict_int[*]
-//@ func (*ClientContext).ResponseHeaders
+//@ iface Context.ResponseHeaders(self) (d)
 //@   nopanic
+//@   ensures d != nil
+//@ iface Context.RequestHeaders(self) (d)
+//@   nopanic
+//@   ensures d != nil
 
 //@ func (clientCodec).Decode
 //@   prop C04 C11
